@@ -70,7 +70,10 @@ func TestTargetBitrateBounded(t *testing.T) {
 			"invariants checked at quiescence after every feedback; non-trivial = a published change, or a zero inter-arrival / 100 % loss feedback; distinct by configuration and history")
 	rapid.Check(t, func(t *rapid.T) {
 		kit.Idle()
-		levels := []int{5_000, 20_000, 100_000, 150_000, 1_000_000, 5_000_000, 50_000_000, 1_000_000_000}
+		levels := []int{1_000, 3_000, 5_000, 20_000, 100_000, 150_000, 1_000_000, 5_000_000, 50_000_000, 1_000_000_000} // (the built-in defaults are 5 kbit/s .. 50 Mbit/s: values on both sides of them)
+		if rapid.IntRange(0, 5).Draw(t, "belowDefaults") == 0 {
+			levels = []int{1_000, 2_000, 3_000, 4_000, 4_900} // the whole configuration below the built-in minimum of 5 kbit/s
+		}
 		a := rapid.IntRange(0, len(levels)-1).Draw(t, "minIdx")
 		b := rapid.IntRange(a, len(levels)-1).Draw(t, "initIdx")
 		c := rapid.IntRange(b, len(levels)-1).Draw(t, "maxIdx")
@@ -87,6 +90,8 @@ func TestTargetBitrateBounded(t *testing.T) {
 		case "noop":
 			opts = append(opts, gcc.SendSideBWEPacer(gcc.NewNoOpPacer()))
 		}
+		// options are applied in the order given: the configuration that results must not depend on it
+		opts = rapid.Permutation(opts).Draw(t, "optionOrder")
 		base := kit.StableGoroutines()
 		bwe, err := gcc.NewSendSideBWE(opts...)
 		if err != nil {
@@ -94,11 +99,24 @@ func TestTargetBitrateBounded(t *testing.T) {
 		}
 		var cbMu sync.Mutex
 		var callbacks []int
+		type seenInCallback struct{ given, getter int }
+		var seen []seenInCallback
+		var bweRef *gcc.SendSideBWE
+		reenter := rapid.Bool().Draw(t, "callbackReadsEstimator")
 		bwe.OnTargetBitrateChange(func(r int) {
+			got := -1
+			if reenter { // an application's callback may look at the estimator it was called by
+				got = bweRef.GetTargetBitrate()
+				_ = bweRef.GetStats()
+			}
 			cbMu.Lock()
 			callbacks = append(callbacks, r)
+			if reenter {
+				seen = append(seen, seenInCallback{r, got})
+			}
 			cbMu.Unlock()
 		})
+		bweRef = bwe
 		sink := &kit.RTPSink{}
 		w := bwe.AddStream(&interceptor.StreamInfo{SSRC: 1, RTPHeaderExtensions: []interceptor.RTPHeaderExtension{{URI: transportCCURI, ID: extID}}}, sink)
 		running := kit.StableGoroutines() // with the estimator's goroutines (and the leaky bucket's) running
@@ -107,6 +125,33 @@ func TestTargetBitrateBounded(t *testing.T) {
 			if !closed {
 				kit.BoundedClose(bwe.Close)
 			}
+		}()
+		// an observer that polls the estimator all the time (a statistics collector): legal concurrency that contends for its locks
+		stopPoll := make(chan struct{})
+		var pollWG sync.WaitGroup
+		if rapid.Bool().Draw(t, "poller") {
+			running++ // one more goroutine that stays for the whole case
+			pollWG.Add(1)
+			go func() {
+				defer pollWG.Done()
+				for {
+					select {
+					case <-stopPoll:
+						return
+					default:
+						_ = bwe.GetStats()
+						_ = bwe.GetTargetBitrate()
+					}
+				}
+			}()
+		}
+		defer func() {
+			select {
+			case <-stopPoll:
+			default:
+				close(stopPoll)
+			}
+			pollWG.Wait()
 		}()
 		where := fmt.Sprintf("min %d initial %d max %d pacer %s", minR, initR, maxR, pacerKind)
 		twccSeq := kit.U16Boundary().Draw(t, "twccStart")
@@ -157,6 +202,26 @@ func TestTargetBitrateBounded(t *testing.T) {
 				sort.Ints(y)
 				if fmt.Sprint(x) != fmt.Sprint(y) {
 					t.Fatalf("%s: after %s the pacer was told %v, the change callback %v (as multisets they must agree)", where, after, rates, cbs)
+				}
+				// what the getter returned inside a callback is the value the callback was given, or one published after it (the pacer is told
+				// synchronously, so its list is the order of publication)
+				cbMu.Lock()
+				sn := append([]seenInCallback(nil), seen...)
+				cbMu.Unlock()
+				for _, sc := range sn {
+					ok := false
+					for i, r := range rates {
+						if r != sc.given {
+							continue
+						}
+						for _, later := range rates[i:] {
+							ok = ok || later == sc.getter
+						}
+					}
+					if !ok {
+						t.Fatalf("%s: after %s: a change callback was given %d, and GetTargetBitrate() called inside it returned %d, which is neither that value nor one published after it (publication order %v)",
+							where, after, sc.given, sc.getter, rates)
+					}
 				}
 			}
 			if len(cbs) > 0 {
